@@ -20,7 +20,7 @@ Property oracle (real objects only, after every call, failing calls included):
   * indexes: `cache.indexes[pk]` equals {pk: obj} over the session's objects that hold a primary key (not cancelled /
     flushed-deleted); `cache.indexes[key]` equals {current value: obj} over the non-deleted objects whose key value has no None.
 """
-import pickle, random, signal, sys, types, json
+import pickle, random, re, signal, sys, types, json
 from pony.orm import db_session, flush, commit, rollback, select, ObjectNotFound
 from pony.orm import core
 
@@ -104,7 +104,18 @@ class World:
         self.ps = []; self.qs = {}; self.relpk = pk if pk in ('relpk', 'relpk1') else None
         if dbfile is None: db.bind('sqlite', ':memory:')
         else: db.bind('sqlite', dbfile, create_db=True)
-        db.generate_mapping(create_tables=True)
+        if spec.get('legacy'):
+            # a table created before `unique=True` / composite_key were added to the model: Pony's own DDL with the UNIQUE constraints
+            # of the non-primary keys stripped — only the session's key indexes can report a conflict
+            db.generate_mapping(check_tables=False, create_tables=False)
+            script = db.schema.generate_create_script()
+            script = re.sub(r',\s*CONSTRAINT "[^"]*" UNIQUE \([^)]*\)', '', script)
+            script = re.sub(r'^(\s*"a\d+" [A-Z]+) UNIQUE', r'\1', script, flags=re.M)
+            with db_session(ddl=True):
+                for stmt in script.split(';'):
+                    if stmt.strip(): db.execute(stmt)
+        else:
+            db.generate_mapping(create_tables=True)
         E0 = self.E0
         self.attrs = [getattr(E0, 'a%d' % i) for i in range(n)]
         self.pk_attrs = E0._pk_attrs_
